@@ -218,11 +218,14 @@ type Ctl struct {
 	Name string
 	mu   sync.Mutex
 
-	muts    int  // mutations attempted so far
-	calls   int  // calls so far
-	CrashAt int  // crash at this mutation index (1-based); 0 = never
-	Before  bool // crash before the mutation lands (else after)
-	crashed bool
+	muts    int // mutations attempted so far
+	calls   int // calls so far
+	CrashAt int // crash at this mutation index (1-based); 0 = never
+	// CrashStore, when set, makes CrashAt count the mutations of that store only
+	CrashStore string
+	storeMuts  int
+	Before     bool // crash before the mutation lands (else after)
+	crashed    bool
 
 	// Faults: return ErrFault once at the n-th call (1-based, counted per client
 	// over calls matching FaultOp/FaultStore, "" = any).
@@ -399,7 +402,16 @@ func (v *View) pre(op, key string, mutation bool) (mutIdx int, crashAfter bool, 
 	if mutation {
 		c.muts++
 		mutIdx = c.muts
-		if c.CrashAt > 0 && c.muts == c.CrashAt {
+		cnt := c.muts
+		if c.CrashStore != "" {
+			if v.Store == c.CrashStore {
+				c.storeMuts++
+				cnt = c.storeMuts
+			} else {
+				cnt = -1
+			}
+		}
+		if c.CrashAt > 0 && cnt == c.CrashAt {
 			c.crashed = true
 			if c.Before {
 				return mutIdx, false, crashedErr()
